@@ -64,6 +64,13 @@ type Store interface {
 	DeleteTopic(ctx context.Context, name string) error
 }
 
+// ConsumerOffsetLookup is implemented by stores that can tell a partition without
+// a committed offset apart from one whose committed offset is 0. The group
+// coordinator uses it to answer OffsetFetch with -1 ("no committed offset").
+type ConsumerOffsetLookup interface {
+	LookupConsumerOffset(ctx context.Context, group, topic string, partition int32) (offset int64, metadata string, found bool, err error)
+}
+
 // TopicSpec describes a topic creation request.
 type TopicSpec struct {
 	Name              string
@@ -506,6 +513,20 @@ func (s *InMemoryStore) FetchConsumerOffset(ctx context.Context, group, topic st
 	defer s.mu.RUnlock()
 	key := consumerOffsetID{group: group, topic: topic, partition: partition}
 	return s.consumerOffsets[key], s.consumerMeta[key], nil
+}
+
+// LookupConsumerOffset implements ConsumerOffsetLookup.
+func (s *InMemoryStore) LookupConsumerOffset(ctx context.Context, group, topic string, partition int32) (int64, string, bool, error) {
+	select {
+	case <-ctx.Done():
+		return 0, "", false, ctx.Err()
+	default:
+	}
+	s.mu.RLock()
+	defer s.mu.RUnlock()
+	key := consumerOffsetID{group: group, topic: topic, partition: partition}
+	offset, found := s.consumerOffsets[key]
+	return offset, s.consumerMeta[key], found, nil
 }
 
 // ListConsumerOffsets implements Store.ListConsumerOffsets.
